@@ -2192,8 +2192,9 @@ class SQLCompiler(Compiled):
 
             if parameter in self.post_compile_params:
                 if escaped_name in replacement_expressions:
-                    to_update = to_update_sets[escaped_name]
-                    values = None
+                    # parameter name used more than once; reuse the
+                    # expansion (and values) of the first occurrence
+                    to_update, values = to_update_sets[escaped_name]
                 else:
                     # we are removing the parameter from parameters
                     # because it is a list value, which is not expected by
@@ -2213,7 +2214,7 @@ class SQLCompiler(Compiled):
                     )
                     to_update, replacement_expr = leep_res
 
-                    to_update_sets[escaped_name] = to_update
+                    to_update_sets[escaped_name] = (to_update, values)
                     replacement_expressions[escaped_name] = replacement_expr
 
                 if not parameter.literal_execute:
